@@ -341,6 +341,9 @@ class Emitter:
             return '(lit N %s %s %s)' % (zlit(m), zlit(e), float_hex_coq(s.args[0]))
         if op == 'ipow':
             return '(ipow N %s %d)' % (self.ref(s.args[0]), s.args[1])
+        if op == 'app':
+            # result of a stubbed call: Gallina template with {i} placeholders for symbolic arguments
+            return s.args[0].format(*[self.ref(a) for a in s.args[1]])
         if op in self.extra_ops:
             return self.extra_ops[op](self, s)
         if op in ('add', 'sub', 'mul', 'div', 'rpow', 'nmax'):
@@ -352,7 +355,7 @@ class Emitter:
     def ref(self, s):
         if not isinstance(s, Sym):
             s = lift(s)
-        if self.share and s.op not in ('var', 'ilit', 'lit') and self.refs.get(s._id, 0) > 1:
+        if self.share and s.op not in ('var', 'ilit', 'lit') and self.refs.get(s._id, 0) > 1 and self.allow_share(s):
             if s._id not in self.names:
                 # bind children first (post-order)
                 txt = self.expr(s, top=True)
@@ -361,6 +364,9 @@ class Emitter:
                 self.order.append((name, txt))
             return self.names[s._id]
         return self.expr(s)
+
+    def allow_share(self, s):
+        return True
 
     def lets(self):
         return ''.join('let %s := %s in\n    ' % (n, t) for n, t in self.order)
